@@ -244,6 +244,33 @@ def _check_state(ctx, L, p, state):
                   'table %s: %d windows, specification %d' % (dom, seen, len([w for w in state if w['domain'] == dom])))
 
 
+_plain = []
+
+
+def _plain_tables():
+    """does the parser keep its open windows as tid -> code -> list of events in `on_going_events` / `on_going_traces`?  The
+    one-step harness writes its pre-state into those tables; if the representation is another one (a refactoring), the step
+    is decided by feeding the prefix through the public `feed` instead, and the post-state obligation is not claimed."""
+    if not _plain:
+        ok = True
+        try:
+            from pykdebugparser.kevent import Kevent
+            from pykdebugparser.traces_parser import TracesParser
+            by_id, by_name = sweep.codes()
+            q = TracesParser(by_id, {}, {})
+            for c in 'AS':
+                eid = by_name[CODES[c]]
+                q.feed(Kevent(1, bytes(32), (0, 0, 0, 0), 0x77, eid | 1, eid, 1))
+            for t in _tables_of(q).values():
+                ok = ok and isinstance(t, dict) and all(isinstance(w, dict) and all(type(l) is list for l in w.values())
+                                                        for w in t.values())
+            ok = ok and sum(len(w) for t in _tables_of(q).values() for w in t.values()) == 2
+        except Exception:   # noqa
+            ok = False
+        _plain.append(ok)
+    return _plain[0]
+
+
 def run_step(ctx, st):
     # pre-state: each thread's sequence is folded by the specification (never fed to the parser), then installed
     state = []
@@ -258,7 +285,19 @@ def run_step(ctx, st):
             all_evs.append(e)
             state, _ = P.step(state, e)
     p = _parser(ctx)
-    _install(p, state)
+    plain = _plain_tables()
+    if plain:
+        _install(p, state)
+    else:
+        ctx.note('C04/step', 'pairing state is not tid -> code -> list: prefix fed through feed(), post-state not claimed')
+        for pe in all_evs:
+            try:
+                p.feed(pe.obj)
+            except Exception as ex:     # noqa
+                __import__('vxlib.symx.core', fromlist=['x']).proxy_rejected(ex)
+                ctx.check('C04/step/no-error', False, 'prefix: %s: %s' % (type(ex).__name__, ex))
+                ctx.reach()
+                return
     e = _mk(ctx, n, st['e'][0], st['e'][1], ctx.int('tid'))
     all_evs.append(e)
     try:
@@ -271,5 +310,6 @@ def run_step(ctx, st):
     before = P.copy_state(state)
     state2, emitted = P.step(P.copy_state(state), e)
     _compare_emission(ctx, 'C04/step', ret, emitted, all_evs)
-    _check_state(ctx, 'C04/step/post-state', p, state2)
+    if plain:
+        _check_state(ctx, 'C04/step/post-state', p, state2)
     ctx.reach()
